@@ -265,4 +265,48 @@ LawWindowShift(lo, hi, x, n) ==
 WindowDecision(lo, hi, x) ==
   IF ~WellFormed(lo, hi) THEN "any"
   ELSE IF InWindow(lo, hi, x) THEN "accept" ELSE "reject"
+----------------------------------------------------------------------------
+(* Freshness.  A verifier with a clock accepts a timestamp that is at most  *)
+(* `past` seconds old and at most `future` seconds ahead of its clock `now` *)
+(* (RFC 9018 section 4.3: server cookies; the same shape as "inception <=   *)
+(* now <= expiration").  In RFC 1982 terms: ts lies in the window           *)
+(* [now - past, now + future], wherever in the number space now lies.       *)
+Fresh(now, ts, past, future) ==
+  InWindow(Add(now, M - past), Add(now, future + 1), ts)
+\* declarative meaning by modular distances
+FreshMeaning(now, ts, past, future) ==
+  (now - ts) % M <= past \/ (ts - now) % M <= future
+\* the window must be narrower than half a cycle and not a single point
+FreshParamsOK(past, future) ==
+  past \in 0 .. M - 1 /\ future \in 0 .. M - 1 /\ past + future + 1 < H /\ past + future > 0
+
+(* Transcription of CookiesMiddlewareSvc::timestamp_ok                      *)
+(* (src/net/server/middleware/cookies.rs):                                  *)
+(*   let now = Serial::now();                                               *)
+(*   let too_new_at = now.add(FIVE_MINUTES_AS_SECS);                        *)
+(*   let expires_at = serial.add(ONE_HOUR_AS_SECS);                         *)
+(*   if now > expires_at { false } else if serial > too_new_at { false }    *)
+(*   else { true }                                                          *)
+ImplFresh(now, ts, past, future) ==
+  LET too_new_at == Add(now, future)
+      expires_at == Add(ts, past)
+  IN IF ImplCmp(now, expires_at) = "GT" THEN FALSE
+     ELSE IF ImplCmp(ts, too_new_at) = "GT" THEN FALSE
+     ELSE TRUE
+
+LawFresh(now, ts, past, future) ==
+  FreshParamsOK(past, future) =>
+     /\ Fresh(now, ts, past, future) <=> FreshMeaning(now, ts, past, future)
+     /\ ImplFresh(now, ts, past, future) <=> Fresh(now, ts, past, future)
+\* law 4 of the property for this decision: everybody's time passes
+LawFreshShift(now, ts, past, future, n) ==
+  Fresh(Add(now, n), Add(ts, n), past, future) = Fresh(now, ts, past, future)
+\* whether the two ends themselves are inside is not a matter of serial
+\* arithmetic (RFC 9018 says "within"): a timestamp exactly at an end may be
+\* accepted or refused
+FreshAtEnd(now, ts, past, future) ==
+  (now - ts) % M = past \/ (ts - now) % M = future
+FreshDecision(now, ts, past, future) ==
+  IF FreshAtEnd(now, ts, past, future) THEN "any"
+  ELSE IF Fresh(now, ts, past, future) THEN "accept" ELSE "reject"
 =============================================================================
